@@ -74,7 +74,8 @@ def render(f, style=0):
     (keyword case, comments, spacing, an unrelated MASKTYPE table, description texts)."""
     up = style % 2 == 0
     kw = (lambda s: s.upper()) if up else (lambda s: s.lower())
-    sp = ' ' * (1 + style % 3)
+    sp = (' ', '  ', '\t', ' \t ')[style % 4]       # column separators: blanks and tabs (the format allows both)
+    s1 = '\t' if style % 4 == 2 else ' '
     out = ['#', '# maskbits file rendered by the C07 harness', '#']
     if style % 3 == 1:
         out += ['idlutils_version v5_5_33', '']
@@ -94,10 +95,10 @@ def render(f, style=0):
             seen.add(g)
             rows.append('%s %s 64 "%s"' % (kw('masktype') if k % 2 else 'masktype', g, DESCRIPTIONS[(k + 2) % 7] or 'type'))
         pre = 'maskbits' if (k + style) % 3 else 'MASKBITS'
-        rows.append('%s %s%s%2d %s%s"%s"' % (pre, g, sp, b, l, sp, DESCRIPTIONS[(k + style) % 7]))
+        rows.append('%s%s%s%s%2d%s%s%s"%s"' % (pre, s1, g, sp, b, s1, l, sp, DESCRIPTIONS[(k + style) % 7]))
         if style % 3 == 2 and k % 4 == 3:
             rows.append('')
-    al = ['%s %s %s "%s is a synonym for %s."' % ('maskalias' if (k + style) % 2 else 'MASKALIAS', g, a, a, g)
+    al = ['%s%s%s%s%s%s"%s is a synonym for %s."' % ('maskalias' if (k + style) % 2 else 'MASKALIAS', s1, g, sp, a, s1, a, g)
           for k, (a, g) in enumerate(f['alias'])]
     out += (al + [''] + rows) if f['afirst'] else (rows + [''] + al)
     out += ['#', '']
